@@ -276,6 +276,7 @@ def gen_specs(tier, seed):
         combos += list(itertools.permutations(pool, 3))[::6]
     for c in combos:
         specs.append(("multi", tuple(c)))
+    specs.append(("multi", ()))                 # the small end: a program without operations
     for a, b in ARRAY_PAIRS:
         specs.append(("multi", (("pos", a), ("pos", b))))
         specs.append(("multi", (("kw", a), ("pos", b), ("noargs", None))))
